@@ -186,6 +186,9 @@ Inductive stim :=
 | SStop
 | SBreak
 | SAdj (id : Z) (val : Z)                  (* the adjust function of id returns val from now on *)
+| SSib (len : Z)                           (* ResizeQueueLength(len) on ANOTHER queue that was built from the same option
+                                              values: queues are independent instances of the model, so this is no
+                                              label of this queue - nothing changes *)
 | SBatch (subs : list stim).               (* stimuli given while the dispatcher is parked inside a held adjust function,
                                               then the release: ONE observation for all of them.  Model: the labels in
                                               order with ANY internal steps in between (a superset of what the hold
@@ -206,6 +209,7 @@ Definition stim_label (vals : avals) (st : stim) : option label :=
   | SStop => Some Stop
   | SBreak => Some Break
   | SAdj _ _ => None
+  | SSib _ => None
   | SBatch _ => None
   end.
 Definition stim_vals1 (vals : avals) (st : stim) : avals :=
